@@ -34,7 +34,10 @@ def BOUNDS(tier):
             "KIND: for every single trusted kind (and 'forwarded'), every other kind present with a symbolic value of <= 3 characters vs absent: same "
             "metadata; HOP: hop lists 'X, T' with X symbolic (<= 3 characters, may contain commas) in front of 1..3 concrete hops, "
             "trusted_proxy_count 1..3 (for / host / forwarded): same environ as without X, or 400; IDX: 1..5 token hops with a 2-character window, "
-            "trusted_proxy_count 1..4: address/host from exactly the count-th hop from the right (leftmost if fewer)." % n)
+            "trusted_proxy_count 1..4: address/host from exactly the count-th hop from the right (leftmost if fewer); HOP for Forwarded also with trusted "
+            "hops that carry no host= / a proto=, and X as the value of a host= / proto= pair of the untrusted element; QS: values '\"' X '\"' (X symbolic, "
+            "<= %d characters) for X-Forwarded-For/Host/Proto/Port and the for/host/proto/by values of Forwarded: refused unless X is *(qdtext / quoted-pair)."
+            % (n, 4 if tier == "quick" else 5))
 
 
 def jobs(tier):
@@ -59,7 +62,34 @@ def jobs(tier):
     for kind in ("x-forwarded-for", "x-forwarded-host", "forwarded"):
         for k in range(1, 6):
             js.append(dict(name="IDX:%s:k%d" % (kind, k), fam="IDX", kind=kind, k=k))
+    # QS: a value that claims to be a quoted-string ('"' X '"', X symbolic): anything that is not a quoted-string must be refused
+    for kind in QS_TEMPLATES:
+        for n in range(0, (4 if tier == "quick" else 5) + 1):
+            js.append(dict(name="QS:%s:n%d" % (kind, n), fam="QS", kind=kind, n=n))
     return js
+
+
+QS_TEMPLATES = {"x-forwarded-for": ("x-forwarded-for", ""), "x-forwarded-host": ("x-forwarded-host", ""), "x-forwarded-proto": ("x-forwarded-proto", ""),
+                "x-forwarded-port": ("x-forwarded-port", ""), "forwarded-for": ("forwarded", "for="), "forwarded-host": ("forwarded", "host="),
+                "forwarded-proto": ("forwarded", "proto="), "forwarded-by": ("forwarded", "for=a;by=")}
+
+
+def _is_quoted_string_interior(x):
+    """reference (RFC 9110 5.6.4): *( qdtext / quoted-pair ) over the field-value alphabet; decided per character (forks on symbolic cells)"""
+    n = len(x)
+    x = lift(x) if n else x
+    i = 0
+    while i < n:
+        c = x[i:i + 1]
+        if bool(c == chr(92)):
+            if i + 1 >= n:
+                return False  # the backslash would escape the closing quote
+            i += 2
+        elif bool(c == '"'):
+            return False
+        else:
+            i += 1
+    return True
 
 
 def _field_value(eng, n, name):
@@ -69,6 +99,14 @@ def _field_value(eng, n, name):
         if i == 0 or i == n - 1:
             ok = z3.And(ok, c != 0x20, c != 9)
         eng.assume(ok)
+    return s.simplify() if n else ""
+
+
+def _field_value_inner(eng, n, name):
+    """interior of a field value: HTAB, SP, VCHAR, obs-text at every position"""
+    s = SymStr.fresh(n, name)
+    for c in s.c:
+        eng.assume(z3.And(z3.ULE(c, 0xFF), z3.Or(z3.UGE(c, 0x20), c == 9), c != 0x7F))
     return s.simplify() if n else ""
 
 
@@ -93,6 +131,11 @@ def make_inputs(job):
         clear = bool(eng.choose(2, "clear"))
         return dict(fam=fam, trusted=[job["trusted"]], count=1, headers={KINDS[job["trusted"]]: base[job["trusted"]]},
                     extra={KINDS[job["other"]]: v}, clear=clear)
+    if fam == "QS":
+        hdr, prefix = QS_TEMPLATES[job["kind"]]
+        x = _field_value_inner(eng, job["n"], "q")
+        v = prefix + '"' + x + '"'
+        return dict(fam=fam, trusted=[hdr], count=1, headers={KINDS[hdr]: v}, inner=x, clear=True)
     if fam == "HOP":
         x = _field_value(eng, job["nx"], "x")
         eng.assume(x.c[-1] != 0x20 if isinstance(x, SymSeq) and not isinstance(x.c[-1], int) else True)
@@ -101,7 +144,11 @@ def make_inputs(job):
         if nright < count:
             raise PathAbort()  # the left part would be within the trusted suffix
         if job["kind"] == "forwarded":
-            right = ",".join("for=%s;host=%s" % (h, h) for h in HOPS[:nright])
+            # trusted hops with or without their own host= / proto=; the untrusted left part raw or as the value of a pair
+            rstyle = eng.choose(3, "rstyle")
+            right = ",".join(("for=%s;host=%s", "for=%s", "for=%s;proto=https")[rstyle] % ((h, h) if rstyle == 0 else (h,)) for h in HOPS[:nright])
+            lstyle = eng.choose(4, "lstyle")
+            x = ("", "host=", "for=a;host=", "proto=")[lstyle] + x
         else:
             right = ",".join(HOPS[:nright])
         return dict(fam=fam, trusted=[job["kind"]], count=count, headers={KINDS[job["kind"]]: right}, left=x, clear=True)
@@ -164,7 +211,7 @@ def _call(ns, trusted, count, headers, clear):
 
 def scenario(ns, inp):
     fam = inp["fam"]
-    if fam in ("TOT", "IDX"):
+    if fam in ("TOT", "IDX", "QS"):
         return dict(a=_call(ns, inp["trusted"], inp["count"], inp["headers"], inp["clear"]))
     if fam == "KIND":
         h2 = dict(inp["headers"])
@@ -213,6 +260,13 @@ def oracle(inp, obs):
                         bad_pair = True
             if bad_pair:
                 out.append(("a Forwarded pair without '=' is refused with 400", obs["a"][0] == "status:400"))
+    if fam == "QS":
+        x = inp["inner"]
+        # waitress splits list headers at every ',' (and Forwarded elements at every ';') before looking at quotes: with a separator inside X
+        # the quoted value is not one value any more, and no particular verdict is demanded here
+        separated = len(x) and (bool(_has(x, ",")) or (inp["trusted"] == ["forwarded"] and bool(_has(x, ";"))))
+        if not separated and not _is_quoted_string_interior(x):
+            out.append(("bad quoting (a value in double quotes that is not a quoted-string) is refused with 400", obs["a"][0] == "status:400"))
     if fam == "KIND":
         a, b = obs["a"], obs["b"]
         if a[0] == "app" and b[0] == "app":
